@@ -126,7 +126,10 @@ impl<'a> Marker<'a> {
                 let start = *self.probe_n;
                 self.mark_block_tail(&mut i.then_branch);
                 if dead { for k in start..*self.probe_n { self.dead_probes.push(k); } }
+                let dead_else = self.spec.dead_else.iter().any(|(f, c)| *c == cond && (f == "-" || self.features.contains(f)));
+                let start2 = *self.probe_n;
                 if let Some((_, el)) = &mut i.else_branch { self.mark_tail(el); }
+                if dead_else { for k in start2..*self.probe_n { self.dead_probes.push(k); } }
             }
             Expr::Block(b) if b.label.is_none() => self.mark_block_tail(&mut b.block),
             Expr::Match(m) => { for arm in m.arms.iter_mut() { self.mark_tail(&mut arm.body); } }
@@ -314,6 +317,16 @@ impl<'a> VisitMut for Marker<'a> {
             let end = *self.probe_n;
             for k in start..end { self.dead_probes.push(k); }
             if let Some((_, el)) = &mut i.else_branch { self.visit_expr_mut(el); if let Expr::Block(b) = &mut **el { if let Some(p) = self.probe() { b.block.stmts.insert(0, p); } } }
+            return;
+        }
+        let dead_else = self.spec.dead_else.iter().any(|(f, c)| *c == cond && (f == "-" || self.features.contains(f)));
+        if dead_else {
+            self.visit_expr_mut(&mut i.cond);
+            self.visit_block_mut(&mut i.then_branch);
+            if let Some(p) = self.probe() { i.then_branch.stmts.insert(0, p); }
+            let start = *self.probe_n;
+            if let Some((_, el)) = &mut i.else_branch { self.visit_expr_mut(el); if let Expr::Block(b) = &mut **el { if let Some(p) = self.probe() { b.block.stmts.insert(0, p); } } }
+            for k in start..*self.probe_n { self.dead_probes.push(k); }
             return;
         }
         visit_mut::visit_expr_if_mut(self, i);
